@@ -44,8 +44,8 @@ enum { TM_BOOL = 1 << TC_BOOL, TM_INTS = (1 << TC_INT8) | (1 << TC_INT16) | (1 <
 enum { RS_REMOVED = 0, RS_INLINE1, RS_ARRAY1, RS_ARRAY2, RS_ARRAY3, RS_ARRAY17, RS_ARRAY300, RS_OTHER, NUM_RS };
 static inline const char * RepStateName(int s) { static const char * const n[] = {"removed", "inline1", "array1", "array2", "array3", "array17", "array300", "other"}; return (s >= 0 && s < NUM_RS) ? n[s] : "?"; }
 
-enum { OP_ADD = 0, OP_PREPEND, OP_ADDMULTI, OP_REPLACE, OP_REPLACE_OKADD, OP_REMOVE_AT, OP_REMOVE_LAST, OP_FINDCOPY, OP_ENSUREPRIVATE, OP_COPYNAME, OP_SHARENAME, OP_MOVENAME, OP_RENAME, OP_REORDER, OP_ALIAS, OP_SORT, OP_SORT_ONE_ITEM_RANGE, OP_NORMALIZE, OP_FINDCOPY_MESSAGE_BY_VALUE, OP_FINDCOPY_CSTR, OP_MUTATE_REMOVENAME, OP_MUTATE_WHAT, OP_MUTATE_NEWFIELD, OP_MUTATE_ITEMOP, NUM_OP };
-static inline const char * OpName(int o) { static const char * const n[] = {"add", "prepend", "addmulti", "replace", "replace_okadd", "remove_at", "remove_last", "findcopy", "ensureprivate", "copyname", "sharename", "movename", "rename", "reorder", "alias", "sort", "sort_one_item_range", "normalize", "findcopy_message_by_value", "findcopy_cstr", "mutate_removename", "mutate_what", "mutate_newfield", "mutate_itemop"}; return (o >= 0 && o < NUM_OP) ? n[o] : "?"; }
+enum { OP_ADD = 0, OP_PREPEND, OP_ADDMULTI, OP_REPLACE, OP_REPLACE_OKADD, OP_REMOVE_AT, OP_REMOVE_LAST, OP_FINDCOPY, OP_ENSUREPRIVATE, OP_COPYNAME, OP_SHARENAME, OP_MOVENAME, OP_RENAME, OP_REORDER, OP_ALIAS, OP_SORT, OP_SORT_ONE_ITEM_RANGE, OP_NORMALIZE, OP_FINDCOPY_MESSAGE_BY_VALUE, OP_FINDCOPY_CSTR, OP_FINDCOPY_FINDFLAT_OBJECT, OP_MUTATE_REMOVENAME, OP_MUTATE_WHAT, OP_MUTATE_NEWFIELD, OP_MUTATE_ITEMOP, NUM_OP };
+static inline const char * OpName(int o) { static const char * const n[] = {"add", "prepend", "addmulti", "replace", "replace_okadd", "remove_at", "remove_last", "findcopy", "ensureprivate", "copyname", "sharename", "movename", "rename", "reorder", "alias", "sort", "sort_one_item_range", "normalize", "findcopy_message_by_value", "findcopy_cstr", "findcopy_findflat_object", "mutate_removename", "mutate_what", "mutate_newfield", "mutate_itemop"}; return (o >= 0 && o < NUM_OP) ? n[o] : "?"; }
 
 enum { SB_ANY = 0 /* any bytes 1..255 */, SB_UTF8 /* valid UTF-8, 1-3 byte sequences */, SB_ASCII /* printable ASCII */ };
 enum { SIZE_SMALL = 0 /* <= ~200 items, counts <= 8, items <= 40 bytes */, SIZE_NORMAL /* <= ~2500 items, arrays of 17/300, a few KB-sized items */, SIZE_LARGE /* <= ~20000 items */ };
@@ -324,7 +324,17 @@ static inline void FindCopy(Ctx & c, const Message & m, const String & fn, int c
 {
    v.cls = cls; v.tc = tc; v.u.align[0] = v.u.align[1] = 0; v.bytes.clear(); v.msg.Reset(); v.tag.Reset(); v.ptr = NULL;
    status_t r; const uint32 fx = FixedSizeOf(cls);
-   if (cls == TC_POINT && c.R(2)) { Point p; r = m.FindPoint(fn, i, p); float f[2] = {p.x(), p.y()}; memcpy(v.u.b, f, 8); }
+   if ((cls == TC_POINT || cls == TC_RECT) && c.o.extraRoutes && c.R(3) == 0) {   // FindFlat(name, index, T &) with the field's own flattenable type
+      if (cls == TC_POINT) { Point p; r = m.FindFlat(fn, i, p); float f[2] = {p.x(), p.y()}; memcpy(v.u.b, f, 8); } else { Rect q; r = m.FindFlat(fn, i, q); float f[4] = {q.left(), q.top(), q.right(), q.bottom()}; memcpy(v.u.b, f, 16); }
+      c.Op(OP_FINDCOPY_FINDFLAT_OBJECT);
+   }
+   else if ((cls == TC_RAW || cls == TC_USER) && c.o.extraRoutes && c.R(3) == 0) {   // the AddFlat(object) / FindFlat(object) idiom of the documentation, and the read-only reference form
+      Blob b(tc, std::string("previous content")); r = m.FindFlat(fn, i, b); if (r.IsOK()) v.bytes = b.Bytes(); c.Op(OP_FINDCOPY_FINDFLAT_OBJECT);
+      if (r.IsError()) { const void * p0 = NULL; uint32 l0 = 1; if (ItemBytes(m, fn, tc, i, p0, l0) && l0 == 0) r = B_NO_ERROR; }   // a 0-byte buffer has a NULL data pointer, which FindFlat(T &) (like FindData) answers with B_TYPE_MISMATCH
+      ConstFlatCountableRef cf; if (r.IsOK()) { const ByteBuffer * bb = m.FindFlat(fn, i, cf).IsOK() ? dynamic_cast<const ByteBuffer *>(cf()) : NULL; if (bb == NULL || bb->GetNumBytes() != v.bytes.size() || (v.bytes.size() && memcmp(bb->GetBuffer(), v.bytes.data(), v.bytes.size()) != 0)) RouteFail(c, "findflat-object", "FindFlat(name, index, T &) and FindFlat(name, index, ConstFlatCountableRef &) give different bytes"); }
+   }
+   else if (cls == TC_TAG && c.o.extraRoutes && c.R(2)) { ConstRefCountableRef ct; r = m.FindTag(fn, i, ct); if (r.IsOK()) { status_t r2 = m.FindTag(fn, i, v.tag); if (r2.IsError() || v.tag() != ct()) RouteFail(c, "findtag-const", "FindTag(ConstRefCountableRef &) and FindTag(RefCountableRef &) disagree"); } }
+   else if (cls == TC_POINT && c.R(2)) { Point p; r = m.FindPoint(fn, i, p); float f[2] = {p.x(), p.y()}; memcpy(v.u.b, f, 8); }
    else if (cls == TC_RECT && c.R(2)) { Rect q; r = m.FindRect(fn, i, q); float f[4] = {q.left(), q.top(), q.right(), q.bottom()}; memcpy(v.u.b, f, 16); }
    else if (cls == TC_INT32 && c.R(2)) { int32 x = 0; r = m.FindInt32(fn, i, x); memcpy(v.u.b, &x, 4); }
    else if (cls == TC_DOUBLE && c.R(2)) { double x = 0; r = m.FindDouble(fn, i, x); memcpy(v.u.b, &x, 8); }
